@@ -22,7 +22,7 @@ func init() { core.Register(prop{}) }
 func (prop) ID() string    { return "C04" }
 func (prop) Level() string { return "exploration" }
 func (prop) Rule() string {
-	return "scenario = one grammar-generated command sequence of one protocol (ftp, smtp incl. DATA/BDAT, redis, memcached, telnet, http keep-alive, one request per connection for elasticsearch/eos/ethereum/docker/cwmp/ipp, ldap; dns, tftp, snmp, memcached, counterstrike datagrams) delivered through the real dispatcher on a fresh connection per delivery: whole, every single cut point (streams <= 300 bytes, sampled beyond), seeded multi-cuts, 1-byte dribble, each pipelined and lock-step; datagrams sequentially and concurrently. Oracle: per-connection ordered list of command events == the generator's command list, identical across deliveries. Non-trivial = a delivery whose connection produced >=1 command event; distinct by (protocol, sequence, delivery). Datagram protocols other than tftp are also driven with the same sequence six times over from one source address (same-source-history), and every datagram protocol through the real socket listener in bursts. Every tcp protocol is also reachable through a port it shares with a payload-detecting stub listed before it (whole-write deliveries go through it too); half of the telnet sequences are scripts of 25-60 commands. Telnet command lines contain two-, three- and four-byte UTF-8 runes. For http, docker and elasticsearch the recorded request body (the first 1024 bytes) is part of the comparison."
+	return "scenario = one grammar-generated command sequence of one protocol (ftp, smtp incl. DATA/BDAT, redis, memcached, telnet, http keep-alive, one request per connection for elasticsearch/eos/ethereum/docker/cwmp/ipp, ldap; dns, tftp, snmp, memcached, counterstrike datagrams) delivered through the real dispatcher on a fresh connection per delivery: whole, every single cut point (streams <= 300 bytes, sampled beyond), seeded multi-cuts, 1-byte dribble, each pipelined and lock-step; datagrams sequentially and concurrently. Oracle: per-connection ordered list of command events == the generator's command list, identical across deliveries. Non-trivial = a delivery whose connection produced >=1 command event; distinct by (protocol, sequence, delivery). Datagram protocols other than tftp are also driven with the same sequence six times over from one source address (same-source-history), and every datagram protocol through the real socket listener in bursts. Every tcp protocol is also reachable through a port it shares with a payload-detecting stub listed before it (whole-write deliveries go through it too); half of the telnet sequences are scripts of 25-60 commands. Telnet command lines contain two-, three- and four-byte UTF-8 runes. For http, docker and elasticsearch the recorded request body (the first 1024 bytes) is part of the comparison. One http body in three is 1024..3002 bytes long (mostly chunked) and followed by one more request."
 }
 func (prop) Assumptions() []string {
 	return []string{"events are attributed to a connection by its unique source address", "late events are waited for (up to 2 s) before 'missing' is declared; after three confirmed occurrences of one rule in a child the wait is shortened",
